@@ -9,8 +9,8 @@
      poster:  V      post
    The futex wait may be made to return early by injected EINTR / EAGAIN / early
    ETIMEDOUT (each costs one unit of the E budget, like a clock tick).
-   Legal programs: the number of posts is at least the number of waits that
-   cannot time out, so every wait must return.  */
+   Legal programs: the number of posts is at least the number of waits (a timed
+   wait may consume a post as well), so every wait must return.  */
 #include "hcommon.h"
 
 static nsync_semaphore sem;
@@ -21,8 +21,9 @@ static int fsem_setup (const char *program) {
 	if (n < 1) return -1;
 	for (k = 0; k < h_nops[0]; k++) {
 		const char *o = h_op[0][k];
-		if (!strcmp (o, "P") || !strcmp (o, "Pdr") || !strcmp (o, "Ppr")) need++;
-		else if (strcmp (o, "Pd") && strcmp (o, "Pp")) return -1;
+		/* any wait may consume a post (a timed one too), so every wait needs one of its own */
+		if (!strcmp (o, "P") || !strcmp (o, "Pdr") || !strcmp (o, "Ppr") || !strcmp (o, "Pd") || !strcmp (o, "Pp")) need++;
+		else return -1;
 	}
 	for (t = 1; t < n; t++) for (k = 0; k < h_nops[t]; k++) { if (strcmp (h_op[t][k], "V")) return -1; posts++; }
 	if (posts < need) return -1;
